@@ -33,6 +33,7 @@ type Obligation struct {
 	Witness    []string `json:"witness,omitempty"`
 	Reason     string   `json:"reason,omitempty"` // from the table that classified it
 	Nontrivial bool     `json:"-"`
+	Variant    string   `json:"variant,omitempty"` // GOOS of the build variant that produced it (thorough tier)
 }
 
 // Check collects the obligations of one property run.
@@ -250,7 +251,13 @@ type evidence struct {
 // Finish classifies, writes evidence and replay files, prints the verdict
 // lines and returns the exit code.
 func (c *Check) Finish(t *Tables, start time.Time, extra map[string]interface{}) int {
-	c.Classify(t)
+	return c.finish(t, start, extra, false)
+}
+
+func (c *Check) finish(t *Tables, start time.Time, extra map[string]interface{}, classified bool) int {
+	if !classified {
+		c.Classify(t)
+	}
 	vd := verifDir()
 	if dryRun {
 		vd = filepath.Join(os.TempDir(), fmt.Sprintf("syslcheck-dry-%d", os.Getpid()))
